@@ -712,7 +712,8 @@ def c14(ctx):
     else:
         ctx.add_counters({"prefilter_counter_stress_calls": (1 << 29) + 4096})
     ctx.evaluations += sum_exec(ctx, ["_exec"])
-    return C.finish(ctx, "model_checking",
+    extra = tlaps_supplement(ctx, "PrefilterStateUnbounded", ("SatRange", "ProdNat", "InitInv", "NextInv", "Safety"))
+    return C.finish(ctx, "model_checking", extra_cov=extra, rule=
                     "model: every L-model carries an explicit `bad`/`panic` flag for index arithmetic that would underflow, slice indices out of range and failed (debug_)assertions; "
                     "NoBad / NoUnderflow / NoPanic are invariants over all enumerations, and for the packed-pair finders `panic <=> |h| < min_haystack_len` is the invariant; "
                     "code: all vectors of the byte-search, iterator, substring (incl. cfg/objects groups), packed-pair, pair-selection and is_equal models are executed in a build "
